@@ -1,10 +1,11 @@
 """C38 — link re-entry always re-advertises sequence number and credits."""
 from hypothesis import strategies as st
 
-from lunaverif.core import Sub, Result, fail
-from lunaverif.gen import weighted
+from lunaverif.core import Sub, Result, fail, HarnessError
+from lunaverif.gen import weighted, bits
 from lunaverif.ref import g4_usb3 as R
 from lunaverif.bfm import g4_hprx as B
+from lunaverif.bfm import g4_layer as L
 from lunaverif.props import c37 as C37
 
 PROPERTY = "C38"
@@ -34,6 +35,17 @@ ASSUMPTIONS = [
     "the link is never down for less than 12 cycles: LTSSM leaves U0 only into Recovery.Active, which needs a "
     "complete TS1 burst, a TS2 burst, 16 more TS2 and the idle handshake (>150 cycles) before U0 is re-entered; "
     "one- or two-cycle outages are not generated",
+    "[layer] link-layer level (USB3LinkLayer on a mock physical layer, lunaverif/bfm/g4_layer.py): the host is a legal "
+    "link partner -- it trains with TS1 / TS2 / logical idle as the device's LTSSM expects, requests a hot reset only "
+    "with TS2 sets carrying the Reset bit during (re)training, advertises LGOOD(7) LCRD A-D after every entry, sends "
+    "intact transaction-packet headers numbered from the expected advertisement + 1 and only into credits the device "
+    "has granted, and leaves U0 by starting Recovery (TS1) or by one named provocation (header with a wrong sequence "
+    "number, LCRD with a wrong letter, LGOOD with a wrong number); every header it sends ends at least 4 cycles before "
+    "the link can go down, so `last received` is unambiguous; a TS2 with the Reset bit received during training is a "
+    "USB reset (hot reset): the advertisement after it must be LGOOD(7); warm reset / VBUS loss need a second "
+    "524288-cycle TSEQ burst and are exercised only at receiver level (sub reentry)",
+    "[layer] every case continues, in a fork()ed child, one simulation that was taken through the input-free power-on "
+    "prefix (Rx.Detect, Polling.LFPS, the 65536-TSEQ burst) once; the case itself starts in Polling.Active",
 ]
 
 AIM_KINDS = ["any", "LGOOD", "LCRD", "LBAD", "LRTY", "LUP", "LXU", "uniform"]     # + "HDR": end of a received header
@@ -351,4 +363,196 @@ class ReentrySub(Sub):
         return Result(ok=True, nontrivial=in_cmd and len(model2.accepted) >= 1, labels=tuple(sorted(labels)))
 
 
-SUBS = [ReentrySub()]
+# ======================================================================================== link-layer level
+def layer_seg():
+    hdr = st.tuples(weighted([(0, 2), (3, 1), (8, 2), (14, 2), (30, 1)]), bits(32), bits(32), bits(32)).map(list)
+    return st.fixed_dictionaries(dict(
+        # how the link is trained INTO this U0 period
+        hot=weighted([(0, 3), (1, 2)]),
+        hot_extra=st.integers(0, 24),
+        # the period itself
+        adv_delay=weighted([(0, 2), (3, 1), (10, 2), (40, 1)]),
+        adv_gap=weighted([(0, 3), (2, 1), (7, 1)]),
+        post_adv=st.integers(0, 12),
+        hdrs=st.lists(hdr, min_size=0, max_size=6),
+        # how it ends (ignored for the last period)
+        pre_down=weighted([(0, 2), (4, 1), (12, 2), (40, 1)]),
+        down=weighted([("ts1", 4), ("badseq", 2), ("badlcrd", 1), ("badlgood", 1)]),
+        delta=st.integers(0, 6),
+    ))
+
+
+def layer_strategy():
+    return st.fixed_dictionaries(dict(
+        segs=st.lists(layer_seg(), min_size=2, max_size=6),
+        hready=st.sampled_from([[1], [1], [1, 0], [0, 0, 1], [1, 1, 1, 0]]),
+    ))
+
+
+def layer_commands(trace, t0, t1):
+    """Link commands the device handed to the physical layer in cycles [t0, t1): dict(t, cmd, sub) (t = cycle of the
+    command word); a malformed command word gives cmd None."""
+    out = []
+    pending = False
+    for t in range(t0, t1):
+        o = trace[t]
+        if not o.valid:
+            continue
+        if pending:
+            pending = False
+            dec = R.lc_decode(o.data, o.ctrl)
+            out.append(dict(t=t, cmd=dec[0] if dec else None, sub=dec[1] if dec else o.data))
+        elif (o.data, o.ctrl) == R.LCSTART:
+            pending = True
+    return out
+
+
+def judge_layer(case, trace, rep):
+    n = len(trace)
+    hpat = list(case.get("hready") or [1])
+    if not any(hpat):
+        hpat.append(1)
+    ups = [t for t in range(n) if trace[t].trained and (t == 0 or not trace[t - 1].trained)]
+    downs = [t for t in range(1, n) if trace[t - 1].trained and not trace[t].trained]
+    periods = rep["periods"]
+    if [p["up"] for p in periods] != ups or [p["down"] for p in periods if p["down"] is not None] != downs:
+        raise HarnessError(f"host bookkeeping and trace disagree about the U0 periods: {ups} {downs} vs "
+                           f"{[(p['up'], p['down']) for p in periods]}")
+    if rep["stuck"]:
+        raise HarnessError("link training did not complete (not a C38 verdict): " + rep["stuck"])
+    labels = set()
+    nontrivial = False
+    lname = lambda c: f"{R.LC_NAMES.get(c['cmd'], c['cmd'])}({c['sub']})@{c['t']}"
+    for k, p in enumerate(periods):
+        up = p["up"]
+        end = p["down"] if p["down"] is not None else n
+        nxt = periods[k + 1]["up"] if k + 1 < len(periods) else n
+        how = ("power-on training" + (" with hot reset" if p["hot"] else "")) if k == 0 else \
+            ("Recovery with hot reset (TS2 Reset bit)" if p["hot"] else "plain Recovery")
+        good = [h for h in p["sent"] if h["good"]]
+        prev_rx = [h for h in periods[k - 1]["sent"] if h["good"]] if k else []
+        where = (f"U0 entry {k} in cycle {up} after {how}" +
+                 (f"; headers received in the previous period: {[h['seq'] for h in prev_rx]}" if k else ""))
+        cmds = layer_commands(trace, up, end)
+        names = [lname(c) for c in cmds[:7]]
+        want = p["expect_adv"]
+        wtxt = f"LGOOD({want}) LCRD A B C D" + (" (USB reset: nothing received yet)" if p["reset_before"] else
+                                                " (last received header number)")
+        judged_until = end
+        if p["trigger"] not in (None, "ts1"):
+            judged_until = p["trigger_at"]
+        unprovoked = p["down"] is not None and p["trigger"] is None
+        # ---- the advertisement (judged on what was sent, also when the period was cut short)
+        if len(cmds) < 5 and not unprovoked:
+            if end - up < 40 and p["down"] is not None:
+                continue                   # provoked out of U0 before the advertisement could finish: nothing to judge
+            return fail(f"{where}: only {len(cmds)} link commands in {end - up} cycles of U0 ({names}); expected {wtxt}",
+                        signature="layer-no-readvertisement")
+        first = cmds[0] if cmds else None
+        if first is not None and first["cmd"] != R.LGOOD:
+            return fail(f"{where}: the first link command is {names[0]}, not the LGOOD advertisement ({names})",
+                        signature="layer-stale-command-before-advertisement")
+        for i in range(min(4, len(cmds) - 1)):
+            c = cmds[1 + i]
+            if (c["cmd"], c["sub"]) != (R.LCRD, i):
+                return fail(f"{where}: commands after entry are {names}; expected {wtxt}",
+                            signature="layer-credits-not-readvertised")
+        if first is not None and first["sub"] != want:
+            return fail(f"{where}: advertisement is LGOOD({first['sub']}); expected {wtxt}",
+                        signature="layer-sequence-not-reset-by-hot-reset" if p["hot"] else
+                        "layer-advertises-wrong-number")
+        # ---- the link left U0 although the host did nothing to provoke it
+        if unprovoked:
+            last = good[-1] if good else None
+            return fail(f"{where}: the device left U0 in cycle {p['down']} by itself; the host had only sent its "
+                        f"advertisement and {len(good)} intact header(s) numbered from {(want + 1) & 7}"
+                        + (f" (last one seq {last['seq']} in cycles {last['start']}..{last['end']})" if last else "")
+                        + f"; commands since entry: {names}",
+                        signature="layer-hot-reset-receive-state-not-fresh" if p["hot"] else
+                        "layer-unprovoked-recovery-after-reentry")
+        # ---- fresh receive state: exactly the intact headers sent in this period are acknowledged, in order; nothing
+        # stale (LBAD / LRTY / LXU) is sent; nothing but these headers is handed to the protocol layer
+        rest = [c for c in cmds[5:] if c["t"] < judged_until]
+        for c in rest:
+            if c["cmd"] not in (R.LGOOD, R.LCRD, R.LUP):
+                return fail(f"{where}: {lname(c)} transmitted although the host sent only intact in-sequence headers "
+                            f"and no LGO / LRTY in this period", signature="layer-stale-command-after-reentry")
+        acks = [c["sub"] for c in rest if c["cmd"] == R.LGOOD]
+        due = [h["seq"] for h in good if h["end"] + 40 <= judged_until]
+        possible = [h["seq"] for h in good]
+        if acks != possible[:len(acks)] or len(acks) < len(due):
+            return fail(f"{where}: advertisement LGOOD({want}) was followed by intact headers numbered {possible} "
+                        f"(last words in cycles {[h['end'] for h in good]}) but the device acknowledged {acks} "
+                        f"(judged up to cycle {judged_until})", signature="layer-receive-state-not-fresh")
+        delivered = [(trace[t].hseq, trace[t].h0, trace[t].h1, trace[t].h2) for t in range(up, nxt)
+                     if trace[t].hvalid and hpat[t % len(hpat)]]
+        sent_f = [(h["seq"], h["dw0"], h["dw1"], h["dw2"]) for h in p["sent"] if h["good"]]
+        if delivered != sent_f[:len(delivered)]:
+            return fail(f"{where}: headers handed to the protocol layer (seq, dw0..2) {delivered[:6]} are not a prefix "
+                        f"of the headers received in this period {sent_f[:6]}: a stale or altered header was queued",
+                        signature="layer-stale-header-delivered")
+        # ---- classification
+        if k:
+            labels.add("reentry-hot" if p["hot"] else "reentry-plain")
+            labels.add("down-by-" + str(periods[k - 1]["trigger"]))
+            if p["hot"] and prev_rx:
+                labels.add("hot-reset-after-traffic")
+            if not p["hot"] and want != 7:
+                labels.add("plain-reentry-number!=7")
+            if acks and ((p["hot"] and prev_rx) or (not p["hot"] and want != 7)):
+                nontrivial = True
+        elif p["hot"]:
+            labels.add("first-entry-hot")
+        if p.get("starved"):
+            labels.add("host-credit-starved")
+        if len(good) >= 4:
+            labels.add("period-headers>=4")
+    labels.add(f"entries={min(len(periods), 6)}")
+    return Result(ok=True, nontrivial=nontrivial, labels=tuple(sorted(labels)))
+
+
+class LayerSub(Sub):
+    name = "layer"
+    budget = {"quick": 64, "thorough": 1500}
+    shrink_budget = 12
+    rule = ("complete USB3LinkLayer (LTSSM, TS unit, header receiver / transmitter, timers as wired in link/layer.py) on "
+            "a mock physical layer, prepared once through power-on up to Polling.Active, each case continued in a "
+            "forked child: a closed-loop host trains the link and plays 2..6 U0 periods -- entered by plain training / "
+            "Recovery or through a HOT RESET (TS2 with the Reset bit; 0..24 extra reset sets) -- each with the host's "
+            "advertisement (generated delay / spacing), 0..6 intact headers (random content, gaps 0..30, credit "
+            "respecting) and an exit by host Recovery (TS1) or a provoked device Recovery (wrong header number, wrong "
+            "LCRD letter, wrong LGOOD number) 0..40 cycles after the last header; header_source.ready patterns. Oracle "
+            "(host-side reference count of what was received): after EVERY entry into U0 the commands handed to the "
+            "physical layer begin with exactly LGOOD(last received number; 7 after power-on or a hot reset) LCRD A B C "
+            "D; then exactly the period's headers are acknowledged in order from that number + 1, no LBAD/LRTY/LXU "
+            "appears, only these headers reach the protocol layer, and the device does not leave U0 unprovoked. "
+            "Non-trivial: a re-entry whose expected number differs from what a wrong reset decision would give "
+            "(plain Recovery after traffic with number != 7, or hot reset after traffic) followed by an "
+            "acknowledged header.")
+
+    def setup(self):
+        if getattr(self, "h", None) is None:
+            self.h = L.LayerHarness()
+        self.h.prepare()
+
+    def enumerate(self, tier):
+        # Called once in the parent before the workers are forked: prepare the (expensive, input-free) power-on prefix
+        # here so that every worker inherits it instead of repeating it.  No enumerated cases.
+        self.setup()
+        return None
+
+    def strategy(self):
+        return layer_strategy()
+
+    def run(self, case):
+        segs = case["segs"]
+        max_cycles = 1500 + sum(900 + 60 * s.get("hot_extra", 0) + s.get("adv_delay", 0) + s.get("pre_down", 0) +
+                                sum(40 + h[0] for h in s["hdrs"]) for s in segs)
+        trace, rep = self.h.run_case(lambda: L.Host(case), max_cycles)
+        if not rep["done"] and not rep["stuck"]:
+            raise HarnessError(f"history did not finish within {max_cycles} cycles (host phase {rep['phase']}, "
+                               f"segment {rep['si']})")
+        return judge_layer(case, trace, rep)
+
+
+SUBS = [ReentrySub(), LayerSub()]
